@@ -862,3 +862,20 @@ fire('C17', 'splitter-pallet-stage-blocked-mark-dropped (seed C17-b)', 'C17.R8',
      lambda p: M.delete_stmt(p, N_SPL, 'Splitter.worker', M.assign_to('self.env.active_process.thread_state'), which=3))
 fire('C17', 'machine-blocking-wait-not-marked-blocked', 'C17.R8', 'Machine.worker',
      lambda p: M.delete_stmt(p, N_MAC, 'Machine.worker', M.assign_to('self.env.active_process.thread_state'), which=2))
+
+
+# ============================================================================================ blind spots found by tools/mutation_sweep.py
+fire('C04', 'buffer-grant-get-without-succeed', 'C04.R5', 'BufferStore._do_reserve_get',
+     lambda p: M.delete_stmt(p, S_BUF, 'BufferStore._do_reserve_get', M.stmt_calling('event.succeed')))
+fire('C04', 'fleet-grant-put-without-succeed', 'C04.R5', 'FleetStore._do_reserve_put',
+     lambda p: M.delete_stmt(p, S_FLT, 'FleetStore._do_reserve_put', M.stmt_calling('event.succeed')))
+fire('C07', 'fleet-token-without-resourcename', 'C07.R6', 'FleetStore.reserve_put',
+     lambda p: M.delete_stmt(p, S_FLT, 'FleetStore.reserve_put', M.assign_to('event.resourcename')))
+fire('C07', 'belt-token-without-requesting-process', 'C07.R6', 'BeltStore.reserve_get',
+     lambda p: M.delete_stmt(p, S_BELT, 'BeltStore.reserve_get', M.assign_to('event.requesting_process')))
+fire('C02', 'fleet-move-index-from-other-list', 'C02.R5', 'FleetStore.move_to_ready_items',
+     lambda p: M.replace_node(p, S_FLT, 'FleetStore.move_to_ready_items', M.is_call('self.items.index'), 'self.ready_items.index(item)'))
+fire('C01', 'buffer-put-rejected-by-get-side-list', 'C01.O9', 'BufferStore.put',
+     lambda p: M.replace_node(p, S_BUF, 'BufferStore._trigger_put', lambda n: isinstance(n, ast.Attribute) and ast.unparse(n) == 'self.reservations_put', 'self.reservations_get', which=0))
+fire('C01', 'fleet-put-rejected-by-get-side-list', 'C01.O9', 'FleetStore.put',
+     lambda p: M.replace_node(p, S_FLT, 'FleetStore.put', lambda n: isinstance(n, ast.Attribute) and ast.unparse(n) == 'self.reservations_put', 'self.reservations_get', which=0))
